@@ -48,6 +48,9 @@ func init() {
 		efsb.Insert(selector.SelectorKey_ExploreConditional, ssb.ExploreFields(func(efsb builder.ExploreFieldsSpecBuilder) {
 			efsb.Insert(selector.SelectorKey_Next, ssb.ExploreRecursiveEdge())
 		}))
+		efsb.Insert(selector.SelectorKey_ExploreInterpretAs, ssb.ExploreFields(func(efsb builder.ExploreFieldsSpecBuilder) {
+			efsb.Insert(selector.SelectorKey_Next, ssb.ExploreRecursiveEdge())
+		}))
 	})).Selector()
 }
 
